@@ -17,12 +17,21 @@ META = {
             "are replayed on the model, comparing what the service read and the state of the real ServiceCache entry. "
             "Search: generated stateless services x batches of 2-32 concurrent requests with distinct markers x "
             "GOMAXPROCS 1/4/16, also under the race detector; each response must equal a reference computed from the "
-            "request alone and the response to the same request served alone, and contain no other request's marker.",
+            "request alone and the response to the same request served alone, and contain no other request's marker. "
+            "The generated services also build values from struct / map / array LITERALS ({}, {who: a, opt: {}}, map and array "
+            "literals, typed T{}, literals in loops, helpers, copies; 0-3 per service) whose optional members are set only when "
+            "the request has a body / a b parameter; dedicated services (one per literal kind) are served from ONE cached "
+            "compilation by requests that set every optional member followed - serially, after a failing run, and concurrently - "
+            "by requests that set none; at quiescent points the constants embedded in the cached bytecode (every instruction "
+            "operand, function bodies included) must equal those of a fresh compilation of the same file.",
     "note": "trusted: Lean kernel; the harness and its Go reference of the generated services; Go's race detector. "
             "Modelled, not verified: the bytecode interpreter (a run reads its own table and may assign its URL-part "
             "variables; locals live in the per-request child table), the locks (not modelled: the theorems cover a superset "
             "of the real interleavings), package-level state (packages are opaque shared objects, excluded by the property), "
-            "Ego `go` statements inside a service. Real schedules are sampled, not enumerated; the C08 yield hook is not used.",
+            "Ego `go` statements inside a service. Real schedules are sampled, not enumerated; the C08 yield hook is not used. "
+            "The compiled code handed out by the cache is one shared object in the model; that a run does not change it is not "
+            "proved but checked (literal services + constants probe). Repaired in /repo (e7f3c5e0): `m[k] = {}` / `[]any{ {} }` followed by a "
+            "change through the element wrote into the compiled constant; {} now yields a copy on every evaluation.",
     "technique": "Lean 4 proof (invariant over all operation lists) + model/implementation correspondence + concurrent search with -race",
     "design_ref": "DESIGN.md §6 C42",
 }
@@ -43,7 +52,9 @@ def run(ctx):
                     "the Go reference c42Expect of the generated services; Go race detector"]
     ctx.assumptions += ["a service run reads the symbols of its own request table and assigns only its URL-part variables there",
                         "packages are shared by design (the property excludes package-level state)",
-                        "model steps are atomic regions; the locks are not modelled (superset of interleavings)"]
+                        "model steps are atomic regions; the locks are not modelled (superset of interleavings)",
+                        "a run does not modify the cached bytecode (checked each run: constants of the cached compilation "
+                        "equal those of a fresh compilation after requests were served)"]
     ctx.lean_audit(required=REQUIRED)
     if not ctx.quick:
         ctx.leanchecker()
@@ -79,11 +90,16 @@ def run(ctx):
         for k, v in c2.items():
             c["race." + k] = v
     ctx.coverage.update({
-        "evaluations": len(cases) + c.get("requests.concurrent", 0) + c.get("race.requests.concurrent", 0),
+        "evaluations": len(cases) + c.get("requests.concurrent", 0) + c.get("race.requests.concurrent", 0)
+                       + c.get("requests.literal-serial", 0) + c.get("race.requests.literal-serial", 0),
         "distinct_nontrivial": c.get("distinct_nontrivial", 0),
         "rule": "distinct (service pattern, batch size, GOMAXPROCS, method, fail/assign/body flags) of concurrent requests plus distinct "
-                "(number of URL parts, caching, fail, assign, cache state) of serial history steps; every request carries a unique "
-                "marker in URL parts, parameters, user and body, so all are non-trivial",
+                "(number of URL parts, caching, fail, assign, cache state) of serial history steps plus distinct (literal blocks, step, "
+                "optional inputs present) of the literal sequences; every request carries a unique marker in URL parts, parameters, "
+                "user and body, so all are non-trivial",
+        "literal_sequences": {"serial_requests": c.get("requests.literal-serial", 0),
+                              "compilations_probed": c.get("probe.compilations-compared", 0),
+                              "constants_compared": c.get("probe.constants-compared", 0)},
         "race_detector": race,
         "samples": st.get("samples", []),
         "counters": c,
